@@ -506,6 +506,46 @@ func jsonMain(args mon.Args) {
 			one(c, fmt.Sprintf("nasty:%d:%v", si, vl), false)
 		}
 	}
+	// "strings" are named in the statement's quantifier as well: the published text is anchored to the octets on the
+	// wire (round 13, C05-m: a decode that collapses a run of non-UTF-8 octets into one replacement is carried
+	// "faithfully" by the encoder and still shortens what the exporter sent)
+	adj := [][]byte{[]byte("Gr\xf6\xdfe"), []byte("\xff\xfeA\x00B"), []byte("\xc0\xc1\xf5\xf8"), []byte("ab\xe2\x82"), []byte("\xfc\xfd\xfe\xffz"),
+		[]byte("x\xf6y\xdf\xfcz"), []byte("\xa0\xa1"), []byte("caf\xe9\xe8 \"q\" \\ \xed\xa0\x80")}
+	for si := 0; si < 64+len(adj); si++ {
+		g := mon.NewRNG(run.Seed, "anchored-string", si)
+		var raw []byte
+		if si < len(adj) {
+			raw = adj[si]
+		} else {
+			raw = wire.GenValue(g, "string", g.Range(2, 40), true)
+			if g.Chance(1, 2) { // a run of octets that can never occur in UTF-8
+				at, n := g.Intn(len(raw)), g.Range(2, 5)
+				for k := at; k < at+n && k < len(raw); k++ {
+					raw[k] = []byte{0xff, 0xfe, 0xf8, 0xc0, 0xc1, 0xf6}[g.Intn(6)]
+				}
+			}
+		}
+		for _, pv := range []struct {
+			proto string
+			vl    bool
+		}{{"ipfix", false}, {"ipfix", true}, {"nf9", false}} {
+			f := wire.Field{ID: 83, Len: uint16(len(raw)), Type: "string"} // interfaceDescription (82 is retyped by the installed file)
+			if pv.vl {
+				f.Len = 65535
+			}
+			t := &wire.Template{ID: 402, Fields: []wire.Field{f}}
+			rec := []wire.Record{{{Raw: raw}}}
+			if pv.proto == "nf9" && len(raw) < 4 {
+				continue
+			}
+			c := sweepCase(pv.proto, t, rec, g)
+			one(c, fmt.Sprintf("anchored-string:%d:%s:%v", si, pv.proto, pv.vl), false)
+			run.Add("string_values_anchored_to_the_wire", 1)
+			if w := stringAnchor(c.Output, raw); w != "" {
+				run.Violation("json:"+pv.proto+":string-differs-from-the-wire", w, c)
+			}
+		}
+	}
 	n := run.Pick(40000, 2000000)
 	mon.ParallelFor(n, func(i int) {
 		g := mon.NewRNG(run.Seed, "json", i)
@@ -572,6 +612,85 @@ func pickTypes(g *mon.RNG) []string {
 }
 
 // boolAnchor compares the V of every one-field record of a published document with the octet sent.
+// textItems cuts a text into its well-formed stretches and the gaps between them. For the octets on the wire a gap is a
+// run of octets that are not UTF-8 (lo = the octets that cannot continue a sequence, at least 1: every such octet is
+// a maximal ill-formed subpart of its own under every replacement practice; hi = all octets of the run); for a
+// published text a gap is a run of U+FFFD (lo = hi = their number).
+type textItem struct {
+	part   string
+	lo, hi int
+}
+
+func textItems(s string, published bool) []textItem {
+	var it []textItem
+	gap := false
+	for len(s) > 0 {
+		r, n := utf8.DecodeRuneInString(s)
+		bad := r == utf8.RuneError && n <= 1
+		if published {
+			bad = r == 0xFFFD
+		}
+		if bad {
+			if !gap {
+				it = append(it, textItem{})
+				gap = true
+			}
+			x := &it[len(it)-1]
+			x.hi++
+			if published || s[0] < 0x80 || s[0] > 0xbf {
+				x.lo++
+			}
+		} else {
+			if gap || len(it) == 0 {
+				it = append(it, textItem{part: ""})
+				gap = false
+				it[len(it)-1].lo = -1
+			}
+			it[len(it)-1].part += s[:n]
+		}
+		s = s[n:]
+	}
+	return it
+}
+
+// stringAnchor compares the single published string of the document with the octets that were sent.
+func stringAnchor(out string, raw []byte) string {
+	if strings.Contains(string(raw), "\uFFFD") {
+		return "" // a well-formed U+FFFD on the wire cannot be told from a replacement
+	}
+	var doc struct {
+		DataSets [][]struct {
+			V interface{} `json:"V"`
+		}
+	}
+	if err := json.Unmarshal([]byte(out), &doc); err != nil || len(doc.DataSets) != 1 || len(doc.DataSets[0]) != 1 {
+		return ""
+	}
+	got, ok := doc.DataSets[0][0].V.(string)
+	if !ok {
+		return fmt.Sprintf("the octets %q are published as %v, not a string", raw, doc.DataSets[0][0].V)
+	}
+	w, p := textItems(string(raw), false), textItems(got, true)
+	bad := len(w) != len(p)
+	for i := 0; !bad && i < len(w); i++ {
+		if (w[i].lo < 0) != (p[i].lo < 0) {
+			bad = true
+		} else if w[i].lo < 0 {
+			bad = w[i].part != p[i].part
+		} else {
+			lo := w[i].lo
+			if lo < 1 {
+				lo = 1
+			}
+			bad = p[i].hi < lo || p[i].hi > w[i].hi
+		}
+	}
+	if bad {
+		return fmt.Sprintf("the octets %q are published as %q: the well-formed stretches differ, or a run of ill-formed octets is not replaced by between (its octets that cannot continue a sequence) and (all its octets) U+FFFD", raw, got)
+	}
+	return ""
+}
+
 func boolAnchor(out string, recs []wire.Record) string {
 	var doc struct {
 		DataSets [][]struct {
